@@ -4,6 +4,7 @@ import FeatModel.Lemmas.C13ExtExpand
 import FeatModel.Lemmas.C13ExtSync
 import FeatModel.Lemmas.C13ExtEx
 import FeatModel.Lemmas.C13ExtSplitter
+import FeatModel.Lemmas.C13ExtAlias
 /-! # C13 — distributed vector synchronisation (Gate / SynchVectorTicket / Global::Matrix) -/
 open FeatModel.Dist FeatModel.C13L
 
@@ -929,3 +930,128 @@ theorem C13.splitter_join_split {α : Type} [Field α] [CharZero α] (d : Decomp
 example : SplitterOK exDecomp exRm exBm 3 5 := exSplitterOK
 example : (∀ r, r < exDecomp.np → exRm.getD r [] = List.range (exDecomp.patch r).n) ∧ exBm = exDecomp.maps
     ∧ ([5, 7, 1, 2, 3] : List ℚ).length = 5 := by decide
+
+/-! ## Extensions: operand aliasing in the Global layer -/
+
+/-- (A1) `rowDot` is the row fold of `matVec` -/
+theorem C13.rowDot_eq {α : Type} [Field α] (rows : List (List (Nat × α))) (x : List α) :
+    matVec rows x = rows.map fun row => rowDot row x := rfl
+
+/-- the CSR sweep with the result aliasing the addend computes the same as the non-aliased kernel: each row reads
+its own entry before any later row writes, earlier rows only wrote smaller indices -/
+theorem C13.matVecAxpyInPlace_eq {α : Type} [Field α] (rows : List (List (Nat × α))) (x r : List α) (alpha : α)
+    (hl : rows.length = r.length) : matVecAxpyInPlace rows x r alpha = matVecAxpy rows x r alpha :=
+  FeatModel.C13L.matVecAxpyInPlace_eq rows x r alpha hl
+
+example : matVecAxpyInPlace [[(0, 2), (1, -1)], [(0, -1), (1, 2)]] [1, 2] [10, 20] (3 : ℚ) = [10, 29] := by
+  simp [matVecAxpyInPlace, rowDot, val, List.zipIdx]
+  norm_num
+
+/-- (A2) `gapply2A false false` is `gapply2` -/
+theorem C13.gapply2A_eq_gapply2 {α : Type} [Field α] (ps : List Patch) (ords : List (List Nat))
+    (mats : List (List (List (Nat × α)))) (xs ys : List (List α)) (alpha : α) :
+    gapply2A false false ps ords mats xs ys alpha = gapply2 ps ords mats xs ys alpha := rfl
+
+/-- **`apply(r, x, r, alpha)` gives the same result as `apply(r, x, y, alpha)`** (one matrix row per entry of the
+converted vector) -/
+theorem C13.gapply2_alias {α : Type} [Field α] (ps : List Patch) (ords : List (List Nat))
+    (mats : List (List (List (Nat × α)))) (xs ys : List (List α)) (alpha : α)
+    (hm : ∀ r, r < ps.length → (mats.getD r []).length = (from1to0 (ps.getD r default) (ys.getD r [])).length) :
+    gapply2A true false ps ords mats xs ys alpha = gapply2A false false ps ords mats xs ys alpha :=
+  FeatModel.C13L.gapply2_alias ps ords mats xs ys alpha hm
+
+/-- the same with the hypotheses of `C13.gapply2_eq` -/
+theorem C13.gapply2_alias_decomp {α : Type} [Field α] (d : Decomp) (ords : List (List Nat))
+    (mats : List (List (List (Nat × α)))) (xs ys : List (List α)) (alpha : α)
+    (hm : ∀ r, r < d.np → (mats.getD r []).length = (d.patch r).n)
+    (hyl : ∀ r, r < d.np → (ys.getD r []).length = (d.patch r).n) :
+    gapply2A true false d.patches ords mats xs ys alpha = gapply2 d.patches ords mats xs ys alpha := by
+  rw [← C13.gapply2A_eq_gapply2]
+  apply FeatModel.C13L.gapply2_alias
+  intro r hr
+  have hr' : r < d.np := hr
+  rw [hm r hr']
+  exact (from1to0_length (d.patch r) _ (hyl r hr')).symm
+
+/-- hence `C13.gapply2_eq` holds verbatim for the aliased call -/
+theorem C13.gapply2_alias_eq {α : Type} [Field α] [CharZero α] (d : Decomp) (h : d.WF)
+    (mats : List (List (List (Nat × α)))) (xs ys : List (List α)) (alpha : α) (Y : Nat → α)
+    (hm : ∀ r, r < d.np → (mats.getD r []).length = (d.patch r).n)
+    (hyl : ∀ r, r < d.np → (ys.getD r []).length = (d.patch r).n)
+    (hY : ∀ r, r < d.np → ∀ i, i < (d.patch r).n → val (ys.getD r []) i = Y (d.gdof r i))
+    (ords : List (List Nat))
+    (hord : ∀ r, r < d.np → (ords.getD r []).Perm (List.range (d.patch r).nbrs.length))
+    (r : Nat) (hr : r < d.np) (i : Nat) (hi : i < (d.patch r).n) :
+    val ((gapply2A true false d.patches ords mats xs ys alpha).getD r []) i
+      = Y (d.gdof r i) + alpha * ((List.range d.np).map fun s => (d.sharedVals
+          ((List.range d.np).map fun t => matVec (mats.getD t []) (xs.getD t [])) s (d.gdof r i)).sum).sum := by
+  rw [C13.gapply2_alias_decomp d ords mats xs ys alpha hm hyl]
+  exact C13.gapply2_eq d h mats xs ys alpha Y hm hyl hY ords hord r hr i hi
+
+theorem C13.gapply2A_order_indep {α : Type} [Field α] (al tr : Bool) (ps : List Patch)
+    (mats : List (List (List (Nat × α)))) (xs ys : List (List α)) (alpha : α)
+    (ords₁ ords₂ : List (List Nat)) (h : ∀ r, (ords₁.getD r []).Perm (ords₂.getD r [])) :
+    gapply2A al tr ps ords₁ mats xs ys alpha = gapply2A al tr ps ords₂ mats xs ys alpha :=
+  sync0_perm ps _ ords₁ ords₂ h
+
+/-- (A3) the transposed kernel: length kept, entry `i` receives `alpha * a * x[j]` for every stored entry `(i, a)` of
+every row `j` (no hypothesis on the columns: out-of-range columns are ignored) -/
+theorem C13.matVecTAxpy_val {α : Type} [Field α] (rows : List (List (Nat × α))) (x y : List α) (alpha : α) :
+    (matVecTAxpy rows x y alpha).length = y.length ∧
+    ∀ i, i < y.length →
+      val (matVecTAxpy rows x y alpha) i
+        = val y i + alpha * (((rows.zipIdx.flatMap fun ri => ri.1.map fun e => (e.1, e.2 * val x ri.2)).filter
+            fun p => p.1 = i).map (·.2)).sum :=
+  ⟨matVecTAxpy_length rows x y alpha, fun i hi => FeatModel.C13L.matVecTAxpy_val rows x y alpha i hi⟩
+
+/-- … i.e. `y + alpha * Aᵀx` with `matVecT` of the Lemmas file -/
+theorem C13.matVecTAxpy_matVecT {α : Type} [Field α] (rows : List (List (Nat × α))) (x y : List α) (alpha : α)
+    (i : Nat) (hi : i < y.length) :
+    val (matVecTAxpy rows x y alpha) i = val y i + alpha * val (matVecT rows x y.length) i := by
+  rw [FeatModel.C13L.matVecTAxpy_val rows x y alpha i hi, matVecT_val rows x _ i hi]
+
+/-- the transposed branch does not look at the alias flag -/
+theorem C13.gapply2A_transp_alias {α : Type} [Field α] (ps : List Patch) (ords : List (List Nat))
+    (mats : List (List (List (Nat × α)))) (xs ys : List (List α)) (alpha : α) :
+    gapply2A true true ps ords mats xs ys alpha = gapply2A false true ps ords mats xs ys alpha := rfl
+
+/-- `apply_transposed(r, x, y, alpha)` (aliased or not) with a consistent `y`: `Y` plus `alpha` times the sum over
+the sharing patches of the local transposed products -/
+theorem C13.gapply2A_transp_eq {α : Type} [Field α] [CharZero α] (al : Bool) (d : Decomp) (h : d.WF)
+    (mats : List (List (List (Nat × α)))) (xs ys : List (List α)) (alpha : α) (Y : Nat → α)
+    (hyl : ∀ r, r < d.np → (ys.getD r []).length = (d.patch r).n)
+    (hY : ∀ r, r < d.np → ∀ i, i < (d.patch r).n → val (ys.getD r []) i = Y (d.gdof r i))
+    (ords : List (List Nat))
+    (hord : ∀ r, r < d.np → (ords.getD r []).Perm (List.range (d.patch r).nbrs.length))
+    (r : Nat) (hr : r < d.np) (i : Nat) (hi : i < (d.patch r).n) :
+    val ((gapply2A al true d.patches ords mats xs ys alpha).getD r []) i
+      = Y (d.gdof r i) + alpha * ((List.range d.np).map fun s => (d.sharedVals
+          ((List.range d.np).map fun t => matVecT (mats.getD t []) (xs.getD t []) (d.patch t).n) s
+            (d.gdof r i)).sum).sum :=
+  FeatModel.C13L.gapply2A_transp_eq al d h mats xs ys alpha Y hyl hY ords hord r hr i hi
+
+example : matVecT [[(0, 2), (1, -1)], [(0, -1), (1, 2)]] [(1 : ℚ), 2] 2 = [0, 3] := by
+  simp [matVecT, tEntries, val, List.zipIdx, List.range, List.range.loop]
+  norm_num
+example : matVecTAxpy [[(0, 2), (1, -1)], [(0, -1), (1, 2)]] [1, 2] [10, 20] (3 : ℚ) = [10, 29] := by
+  simp [matVecTAxpy, val, List.zipIdx, List.modify]
+  norm_num
+
+/-- (A4) the aliased `Global::Vector` program `r = (b * (y + a * y))²`: lengths kept, entry by entry … -/
+theorem C13.valiasLocal_val {α : Type} [Field α] (a b : α) (ys : List (List α)) (r : Nat) (hr : r < ys.length) :
+    ((valiasLocal a b ys).getD r []).length = (ys.getD r []).length ∧
+    ∀ i, i < (ys.getD r []).length →
+      val ((valiasLocal a b ys).getD r []) i
+        = (b * (val (ys.getD r []) i + a * val (ys.getD r []) i))
+          * (b * (val (ys.getD r []) i + a * val (ys.getD r []) i)) :=
+  ⟨valiasLocal_length a b ys r hr, fun i hi => FeatModel.C13L.valiasLocal_val a b ys r hr i hi⟩
+
+/-- … so a consistent input `Y` gives the consistent vector `(b * (Y + a * Y))²` -/
+theorem C13.valiasLocal_type1 {α : Type} [Field α] (a b : α) (d : Decomp) (ys : List (List α)) (Y : Nat → α)
+    (hyn : ys.length = d.np)
+    (hyl : ∀ r, r < d.np → (ys.getD r []).length = (d.patch r).n)
+    (hY : ∀ r, r < d.np → ∀ i, i < (d.patch r).n → val (ys.getD r []) i = Y (d.gdof r i))
+    (r : Nat) (hr : r < d.np) (i : Nat) (hi : i < (d.patch r).n) :
+    val ((valiasLocal a b ys).getD r []) i
+      = (b * (Y (d.gdof r i) + a * Y (d.gdof r i))) * (b * (Y (d.gdof r i) + a * Y (d.gdof r i))) := by
+  rw [FeatModel.C13L.valiasLocal_val a b ys r (by omega) i (by rw [hyl r hr]; exact hi), hY r hr i hi]
